@@ -203,7 +203,7 @@ Section Proofs.
           -- rewrite nth_error_upd_eq in Hj by assumption. discriminate.
           -- rewrite nth_error_upd_neq in Hj by assumption. apply (Hgen Hg j). assumption.
       + split.
-        * intros j t0 Hj. exists t0. split; [|split; auto].
+        * intros j t0 Hj. exists t0. simpl. split; [|split; auto].
           apply Hkeep in Hj. destruct (Nat.eq_dec j k) as [->|Hne]; [congruence|].
           rewrite nth_error_upd_neq by assumption. assumption.
         * intros ph Hph. exact Hph.
@@ -220,7 +220,8 @@ Section Proofs.
       (forall j t, nth_error slots j = Some (Some t) -> nth_error slots' j = Some (Some t)).
   Proof.
     induction slots as [|s rest IH]; intros next k Hlen Hok.
-    - exists next, []. simpl. repeat split; auto; intros [|j] ? Hj; discriminate.
+    - exists next, []. simpl. split; [reflexivity|]. split; [reflexivity|].
+      split; intros [|j] ? Hj; discriminate.
     - assert (forall next0, exists next' slots', fill next0 (S k) (mb_txs m) rest = Ok (next', slots') /\
                length slots' = length rest /\
                (forall j s, nth_error slots' j = Some s -> slot_ok m (S k + j) s /\ s <> None) /\
@@ -229,25 +230,23 @@ Section Proofs.
         intros j s0 Hj. replace (S k + j)%nat with (k + S j)%nat by lia. apply Hok. exact Hj. }
       destruct s as [t|].
       + destruct (IH' next) as [next' [slots' [Hf [Hl [Hok' Hkeep]]]]].
-        exists next', (Some t :: slots'). simpl. rewrite Hf. simpl. repeat split.
-        * congruence.
-        * destruct j; simpl in H0.
-          -- inversion H0; subst. replace (k + 0)%nat with k by lia. specialize (Hok 0%nat (Some t) eq_refl).
-             replace (k + 0)%nat with k in Hok by lia. exact Hok.
+        exists next', (Some t :: slots'). simpl. rewrite Hf. simpl.
+        split; [reflexivity|]. split; [congruence|]. split.
+        * intros [|j] s0 Hj; simpl in Hj.
+          -- inversion Hj; subst s0. split; [apply (Hok 0%nat); reflexivity|discriminate].
           -- replace (k + S j)%nat with (S k + j)%nat by lia. apply Hok'. assumption.
-        * destruct j; simpl in H0; [inversion H0; discriminate| eapply Hok'; eassumption].
         * intros [|j] t0 Hj; simpl in *; [assumption| apply Hkeep; assumption].
       + destruct (nth_error (mb_txs m) k) as [mt|] eqn:Hmt.
         2:{ apply nth_error_None in Hmt. simpl in Hlen. lia. }
         simpl. rewrite Hmt. unfold Block.new_tx, Block.set_index. simpl.
         destruct (IH' (next + 1)) as [next' [slots' [Hf [Hl [Hok' Hkeep]]]]].
         rewrite Hf. simpl.
-        eexists next', (Some _ :: slots'). split; [reflexivity|]. simpl. repeat split.
-        * congruence.
-        * destruct j; simpl in H0.
-          -- inversion H0; subst. simpl. replace (k + 0)%nat with k by lia. repeat split; auto.
+        eexists next', (Some _ :: slots'). split; [reflexivity|]. simpl.
+        split; [congruence|]. split.
+        * intros [|j] s0 Hj; simpl in Hj.
+          -- inversion Hj; subst s0. split; [|discriminate]. simpl.
+             replace (k + 0)%nat with k by lia. split; [assumption|]. split; [reflexivity|exact I].
           -- replace (k + S j)%nat with (S k + j)%nat by lia. apply Hok'. assumption.
-        * destruct j; simpl in H0; [inversion H0; discriminate| eapply Hok'; eassumption].
         * intros [|j] t0 Hj; simpl in *; [discriminate| apply Hkeep; assumption].
   Qed.
 
@@ -257,7 +256,7 @@ Section Proofs.
        exists t, s = Some t /\ nth_error txs' j = Some (w_msg t) /\
                  w_index t = Z.of_nat (k + j) /\ w_ptr t = wid ids (k + j)) ->
     map (option_map view) slots =
-    mapi txc (fun k mt => Some (wid ids k, mt_ptr mt, Z.of_nat k)) k txs'.
+    mapi (fun k mt => Some (wid ids k, mt_ptr mt, Z.of_nat k)) k txs'.
   Proof.
     induction slots as [|s rest IH]; intros [|mt txs'] k Hlen Hall; simpl in *; try discriminate; auto.
     f_equal.
@@ -269,7 +268,7 @@ Section Proofs.
 
   Lemma all_some_views ids m b : good m b -> agrees ids b ->
     length (b_txs b) = length (mb_txs m) -> (forall k, nth_error (b_txs b) k <> Some None) ->
-    map (option_map view) (b_txs b) = mapi txc (fun k mt => Some (wid ids k, mt_ptr mt, Z.of_nat k)) 0 (mb_txs m).
+    map (option_map view) (b_txs b) = mapi (fun k mt => Some (wid ids k, mt_ptr mt, Z.of_nat k)) 0 (mb_txs m).
   Proof.
     intros [Hm [Hs [Hh [Hl [Hok Hg]]]]] [A1 A2] Hlen Hsome.
     apply views_eq; [assumption|].
@@ -281,7 +280,16 @@ Section Proofs.
   Definition next_height (h : Z) (o : op) : Z := match o with OpSetHeight h' => h' | _ => h end.
 
   Lemma good_set_ser m b s : good m b -> s = [] \/ s = ser_block m -> good m (set_ser _ _ _ b s).
-  Proof. intros [Hm [Hs [Hh [Hl [Hok Hg]]]]] Hs'. unfold good, Block.set_ser; simpl. repeat split; auto; apply Hg; assumption. Qed.
+  Proof. intros [Hm [Hs [Hh [Hl [Hok Hg]]]]] Hs'. unfold good, Block.set_ser; simpl. repeat (split; [assumption|]). assumption. Qed.
+
+  Lemma ext_same_caches (b b' : block) : b_txs b' = b_txs b -> b_hash b' = b_hash b -> ext b b'.
+  Proof.
+    intros E1 E2. split.
+    - intros k t Hk. exists t. rewrite E1. auto.
+    - intros ph Hph. rewrite E2. assumption.
+  Qed.
+
+  Ltac split4 := split; [|split; [|split]].
 
   Lemma do_bytes_spec m w : good m (w_blk w) ->
     let (w', s) := do_bytes w in
@@ -289,11 +297,29 @@ Section Proofs.
   Proof.
     intros Hgood. pose proof Hgood as [Hm [Hs _]]. unfold Block.do_bytes. rewrite lit_bytes_len0.
     destruct (Nat.eqb_spec (length (b_ser (w_blk w))) 0) as [E|E]; simpl.
-    - rewrite Hm. repeat split; auto.
+    - rewrite Hm. split4; auto.
       + apply good_set_ser; auto.
-      + intros k t Hk. exists t. auto.
+      + apply ext_same_caches; reflexivity.
     - destruct Hs as [Hs|Hs]; [rewrite Hs in E; simpl in E; congruence|].
-      repeat split; auto. apply ext_refl.
+      split4; auto. apply ext_refl.
+  Qed.
+
+  Lemma ref_out_of_range ids m h i : (i < 0 \/ Z.of_nat (length (mb_txs m)) <= i)%Z ->
+    ref_obs ids m h (OpTx i) = OErr H E_RANGE /\ ref_obs ids m h (OpTxHash i) = OErr H E_RANGE.
+  Proof.
+    intros Hi. unfold Block.ref_obs.
+    destruct (Z.ltb_spec i 0); destruct (Z.leb_spec (Z.of_nat (length (mb_txs m))) i); simpl; auto; lia.
+  Qed.
+
+  Lemma in_range_true m i : (0 <= i < Z.of_nat (length (mb_txs m)))%Z ->
+    negb (Z.ltb i 0 || Z.leb (Z.of_nat (length (mb_txs m))) i) = true.
+  Proof. intros Hi. destruct (Z.ltb_spec i 0); destruct (Z.leb_spec (Z.of_nat (length (mb_txs m))) i); simpl; auto; lia. Qed.
+
+  Lemma upd_same {A} (l : list A) : forall k v, nth_error l k = Some v -> upd l k v = l.
+  Proof.
+    induction l as [|x l IH]; intros [|k] v Hk; simpl in *; try discriminate; auto.
+    - inversion Hk. reflexivity.
+    - f_equal. apply IH. assumption.
   Qed.
 
   Lemma step_spec m w o : good m (w_blk w) ->
@@ -305,22 +331,20 @@ Section Proofs.
     intros Hgood. pose proof Hgood as [Hm [Hs [Hh [Hl [Hok Hg]]]]].
     destruct o as [i| |i| | | | |h]; unfold Block.step.
     - (* Tx *)
-      destruct (Z.ltb_spec i 0) as [Hneg|Hnn]; [|destruct (Z.leb_spec (Z.of_nat (length (mb_txs m))) i) as [Hbig|Hsmall]].
-      + rewrite (do_tx_out_of_range m w i Hgood) by lia. simpl. repeat split; auto using ext_refl.
-        intros ids _. unfold Block.ref_obs. destruct (Z.ltb_spec i 0); [reflexivity|lia].
-      + rewrite (do_tx_out_of_range m w i Hgood) by lia. simpl. repeat split; auto using ext_refl.
-        intros ids _. unfold Block.ref_obs. destruct (Z.ltb_spec i 0); [reflexivity|].
-        destruct (Z.leb_spec (Z.of_nat (length (mb_txs m))) i); [reflexivity|lia].
+      destruct (Z_lt_le_dec i 0) as [Hneg|Hnn]; [|destruct (Z_le_gt_dec (Z.of_nat (length (mb_txs m))) i) as [Hbig|Hsmall]].
+      + rewrite (do_tx_out_of_range m w i Hgood) by lia. simpl. split4; auto using ext_refl.
+        intros ids _. symmetry. apply (proj1 (ref_out_of_range ids m (b_height (w_blk w)) i ltac:(lia))).
+      + rewrite (do_tx_out_of_range m w i Hgood) by lia. simpl. split4; auto using ext_refl.
+        intros ids _. symmetry. apply (proj1 (ref_out_of_range ids m (b_height (w_blk w)) i ltac:(lia))).
       + destruct (do_tx_in_range m w i Hgood) as [w' [t [-> [Hg' [He [Hht Hslot]]]]]]; [lia|].
-        simpl. repeat split; auto.
-        intros ids [A1 _]. unfold Block.ref_obs.
-        destruct (Z.ltb_spec i 0); [lia|]. destruct (Z.leb_spec (Z.of_nat (length (mb_txs m))) i); [lia|]. simpl.
+        simpl. split4; auto.
+        intros ids [A1 _]. unfold Block.ref_obs. rewrite in_range_true by lia.
         destruct Hg' as [_ [_ [_ [_ [Hok' _]]]]]. destruct (Hok' _ _ Hslot) as [Hmt [Hi _]].
         rewrite Hmt. destruct (A1 _ _ Hslot) as [Hp _]. unfold Block.view. rewrite Hp, Hi. f_equal. f_equal. lia.
     - (* Transactions *)
       destruct (b_gen (w_blk w)) eqn:Hgen.
-      + simpl. repeat split; auto using ext_refl.
-        intros ids Hag. unfold Block.ref_obs. f_equal. destruct (Hg Hgen) as [Hlen Hsome].
+      + simpl. split4; auto using ext_refl.
+        intros ids Hag. unfold Block.ref_obs. f_equal. destruct (Hg eq_refl) as [Hlen Hsome].
         apply (all_some_views ids m (w_blk w)); auto.
       + rewrite lit_txs_len0, Hm.
         destruct (slots_facts m (w_blk w) Hgood) as [Hlen [Hok0 [Hkeep _]]].
@@ -328,23 +352,23 @@ Section Proofs.
         set (slots := slots_of (w_blk w) (length (mb_txs m))) in *.
         destruct (fill_spec m slots (w_next w) 0) as [next' [slots' [Hf [Hl' [Hok' Hkeep']]]]]; [simpl; lia| exact Hok0 |].
         rewrite Hf. simpl.
+        assert (forall k, nth_error slots' k <> Some None) as Hsome'.
+        { intros k Hk. destruct (Hok' k None Hk) as [_ Hne]. congruence. }
         assert (good m (set_txs (w_blk w) slots' true)) as Hg'.
-        { apply good_set_txs; auto; [congruence| intros k s Hk; apply (Hok' k s Hk) |].
-          intros _ k Hk. destruct (Hok' k None Hk) as [_ Hne]. congruence. }
-        repeat split; auto.
-        * intros k t Hk. exists t. split; [apply Hkeep', Hkeep; assumption|]. split; auto.
-        * intros ph Hph. exact Hph.
+        { apply good_set_txs; auto; [congruence| intros k s Hk; apply (Hok' k s Hk)]. }
+        split4; auto.
+        * split.
+          -- intros k t Hk. exists t. split; [apply Hkeep', Hkeep; assumption|]. split; auto.
+          -- intros ph Hph. exact Hph.
         * intros ids Hag. unfold Block.ref_obs. f_equal.
           apply (all_some_views ids m (set_txs (w_blk w) slots' true)); auto.
-          -- simpl. congruence.
-          -- simpl. intros k Hk. destruct (Hok' k None Hk) as [_ Hne]. congruence.
+          simpl. congruence.
     - (* TxHash *)
-      destruct (Z.ltb_spec i 0) as [Hneg|Hnn]; [|destruct (Z.leb_spec (Z.of_nat (length (mb_txs m))) i) as [Hbig|Hsmall]].
-      + rewrite (do_tx_out_of_range m w i Hgood) by lia. simpl. repeat split; auto using ext_refl.
-        intros ids _. unfold Block.ref_obs. destruct (Z.ltb_spec i 0); [reflexivity|lia].
-      + rewrite (do_tx_out_of_range m w i Hgood) by lia. simpl. repeat split; auto using ext_refl.
-        intros ids _. unfold Block.ref_obs. destruct (Z.ltb_spec i 0); [reflexivity|].
-        destruct (Z.leb_spec (Z.of_nat (length (mb_txs m))) i); [reflexivity|lia].
+      destruct (Z_lt_le_dec i 0) as [Hneg|Hnn]; [|destruct (Z_le_gt_dec (Z.of_nat (length (mb_txs m))) i) as [Hbig|Hsmall]].
+      + rewrite (do_tx_out_of_range m w i Hgood) by lia. simpl. split4; auto using ext_refl.
+        intros ids _. symmetry. apply (proj2 (ref_out_of_range ids m (b_height (w_blk w)) i ltac:(lia))).
+      + rewrite (do_tx_out_of_range m w i Hgood) by lia. simpl. split4; auto using ext_refl.
+        intros ids _. symmetry. apply (proj2 (ref_out_of_range ids m (b_height (w_blk w)) i ltac:(lia))).
       + destruct (do_tx_in_range m w i Hgood) as [w' [t [-> [Hg' [He [Hht Hslot]]]]]]; [lia|].
         set (k := Z.to_nat i) in *.
         pose proof Hg' as [Hm' [Hs' [Hh' [Hl' [Hok' Hgen']]]]].
@@ -356,16 +380,10 @@ Section Proofs.
         unfold Block.wtx_hash.
         destruct (w_hash t) as [ph|] eqn:Hwh.
         * (* cached *)
-          simpl.
-          assert (upd (b_txs (w_blk w')) k (Some t) = b_txs (w_blk w')) as Hsame.
-          { clear -Hslot. revert k Hslot. generalize (b_txs (w_blk w')). induction l as [|x l IH]; intros [|k] Hk; simpl in *; try discriminate; auto.
-            - inversion Hk. reflexivity.
-            - f_equal. apply IH. assumption. }
-          rewrite Hsame.
+          simpl. rewrite (upd_same _ _ _ Hslot).
           assert (set_txs (w_blk w') (b_txs (w_blk w')) (b_gen (w_blk w')) = w_blk w') as Hid by (destruct (w_blk w'); reflexivity).
-          rewrite Hid. repeat split; auto.
-          intros ids [A1 _]. unfold Block.ref_obs.
-          destruct (Z.ltb_spec i 0); [lia|]. destruct (Z.leb_spec (Z.of_nat (length (mb_txs m))) i); [lia|]. simpl.
+          rewrite Hid. split4; auto.
+          intros ids [A1 _]. unfold Block.ref_obs. rewrite in_range_true by lia.
           fold k. rewrite Hmt. destruct (A1 _ _ Hslot) as [_ Hth]. rewrite (Hth ph Hwh). rewrite Hhash. reflexivity.
         * simpl.
           set (t' := mk_wtx txc H (w_ptr t) (w_msg t) (Some (w_next w', tx_hash _ _ _ W (mt_val (w_msg t)))) (w_index t)).
@@ -378,40 +396,38 @@ Section Proofs.
             - intros Hgn j Hj. destruct (Nat.eq_dec j k) as [->|Hne].
               + rewrite nth_error_upd_eq in Hj by assumption. discriminate.
               + rewrite nth_error_upd_neq in Hj by assumption. destruct (Hgen' Hgn) as [_ Hsome]. apply (Hsome j). assumption. }
-          repeat split; auto.
-          -- intros j t0 Hj. destruct He as [He1 _]. destruct (He1 j t0 Hj) as [t1 [Hj1 [Hp1 Hh1]]].
-             simpl. destruct (Nat.eq_dec j k) as [->|Hne].
-             ++ rewrite Hslot in Hj1. inversion Hj1; subst t1. exists t'. rewrite nth_error_upd_eq by assumption.
-                split; [reflexivity|]. split; [assumption|]. intros ph Hph. apply Hh1 in Hph. congruence.
-             ++ exists t1. rewrite nth_error_upd_neq by assumption. auto.
-          -- intros ph Hph. simpl. destruct He as [_ He2]. apply He2. assumption.
-          -- intros ids [A1 _]. unfold Block.ref_obs.
-             destruct (Z.ltb_spec i 0); [lia|]. destruct (Z.leb_spec (Z.of_nat (length (mb_txs m))) i); [lia|]. simpl.
+          split4; auto.
+          -- split.
+             ++ intros j t0 Hj. destruct He as [He1 _]. destruct (He1 j t0 Hj) as [t1 [Hj1 [Hp1 Hh1]]].
+                simpl. destruct (Nat.eq_dec j k) as [->|Hne].
+                ** rewrite Hslot in Hj1. inversion Hj1; subst t1. exists t'. rewrite nth_error_upd_eq by assumption.
+                   split; [reflexivity|]. split; [assumption|]. intros ph Hph. apply Hh1 in Hph. congruence.
+                ** exists t1. rewrite nth_error_upd_neq by assumption. auto.
+             ++ intros ph Hph. simpl. destruct He as [_ He2]. apply He2. assumption.
+          -- intros ids [A1 _]. unfold Block.ref_obs. rewrite in_range_true by lia.
              fold k. rewrite Hmt.
              assert (nth_error (upd (b_txs (w_blk w')) k (Some t')) k = Some (Some t')) as Hnew by (apply nth_error_upd_eq; assumption).
              destruct (A1 k t' Hnew) as [_ Hth]. specialize (Hth _ eq_refl). simpl in Hth. rewrite Hth. reflexivity.
     - (* Hash *)
       destruct (b_hash (w_blk w)) as [[p h]|] eqn:Hbh.
-      + simpl. repeat split; auto using ext_refl.
-        intros ids [_ A2]. unfold Block.ref_obs. rewrite (A2 _ Hbh). simpl in Hh. rewrite Hh. reflexivity.
-      + simpl. repeat split; auto; try (intros; discriminate).
-        * unfold good, Block.set_hash; simpl. rewrite Hm. repeat split; auto; apply Hg; assumption.
-        * intros k t Hk. exists t. auto.
-        * intros ph Hph. congruence.
+      + simpl. split4; auto using ext_refl.
+        intros ids [_ A2]. unfold Block.ref_obs. pose proof (A2 _ Hbh) as Hp. simpl in Hp, Hh. rewrite <- Hp, <- Hh. reflexivity.
+      + simpl. split4; auto.
+        * unfold good, Block.set_hash; simpl. split; [assumption|]. split; [assumption|]. split; [rewrite Hm; reflexivity|]. repeat (split; [assumption|]). assumption.
+        * split; [intros k t Hk; exists t; auto| intros ph Hph; congruence].
         * intros ids [_ A2]. unfold Block.ref_obs. simpl in A2. rewrite <- (A2 _ eq_refl), Hm. reflexivity.
     - (* Bytes *)
       pose proof (do_bytes_spec m w Hgood) as Hb. destruct (do_bytes w) as [w' s].
-      destruct Hb as [Hg' [He [Hht ->]]]. repeat split; auto.
+      destruct Hb as [Hg' [He [Hht ->]]]. split4; auto.
     - (* TxLoc *)
       pose proof (do_bytes_spec m w Hgood) as Hb. destruct (do_bytes w) as [w' s].
       destruct Hb as [Hg' [He [Hht ->]]]. unfold Block.ref_obs.
-      destruct (deser_txloc _ _ _ W (ser_block m)); repeat split; auto.
+      destruct (deser_txloc _ _ _ W (ser_block m)); split4; auto.
     - (* Height *)
-      simpl. repeat split; auto using ext_refl.
+      simpl. split4; auto using ext_refl.
     - (* SetHeight *)
-      simpl. repeat split; auto.
-      + unfold good, Block.set_height; simpl. repeat split; auto; apply Hg; assumption.
-      + intros k t Hk. exists t. auto.
+      simpl. split4; auto.
+      apply ext_same_caches; reflexivity.
   Qed.
 
   (* ---------- histories ---------- *)
@@ -456,7 +472,7 @@ Section Proofs.
       destruct (Nat.leb_spec (length r) (length bytes)) as [Hle|Hgt]; [|discriminate].
       inversion Hb; subst w. simpl. split; [|reflexivity].
       apply good_set_ser; [apply good_fresh; auto|]. right.
-      rewrite Hbytes at 2 3. apply app_firstn_exact.
+      rewrite Hbytes. apply app_firstn_exact.
     - split; [apply good_fresh; assumption|reflexivity].
   Qed.
 
@@ -502,11 +518,11 @@ Section Proofs.
   Proof.
     induction txs as [|t r IH]; intros pre off Hpre i s l Hi.
     - destruct i; discriminate.
-    - destruct i as [|i]; simpl in Hi.
+    - subst off. destruct i as [|i]; simpl in Hi.
       + inversion Hi; subst s l. exists t. split; [reflexivity|]. simpl.
-        rewrite skipn_app. rewrite skipn_all. replace (length pre - length pre)%nat with 0%nat by lia. simpl.
-        rewrite firstn_app. replace (_ - _)%nat with 0%nat by lia. simpl. rewrite firstn_all, app_nil_r. reflexivity.
-      + destruct (IH (pre ++ ser_tx _ _ _ W (mt_val t)) (off + length (ser_tx _ _ _ W (mt_val t)))%nat) with (i := i) (s := s) (l := l)
+        rewrite skipn_app, skipn_all, Nat.sub_diag. simpl.
+        rewrite firstn_app, Nat.sub_diag, firstn_all. simpl. apply app_nil_r.
+      + destruct (IH (pre ++ ser_tx _ _ _ W (mt_val t)) (length pre + length (ser_tx _ _ _ W (mt_val t)))%nat) with (i := i) (s := s) (l := l)
           as [mt [Hmt Hsl]]; [rewrite app_length; lia|exact Hi|].
         exists mt. split; [exact Hmt|]. simpl. rewrite <- app_assoc in Hsl. exact Hsl.
   Qed.
@@ -535,7 +551,8 @@ Section Proofs.
       - destruct (IH (match o with OpSetHeight h0 => h0 | _ => h end)) as [h' [E L]]. exists h'. simpl. rewrite E, L. auto. }
     destruct (Happ (-1)%Z ops) as [h' [-> Hlen]].
     repeat split.
-    - rewrite last_last. reflexivity.
+    - match goal with |- last (?l ++ [?a; ?b]) _ = _ => change (l ++ [a; b]) with (l ++ ([a] ++ [b])) end.
+      rewrite app_assoc, last_last. reflexivity.
     - rewrite app_nth2 by lia. rewrite Hlen, Nat.sub_diag. simpl. rewrite Hloc. reflexivity.
     - unfold Block.locs_of. apply locs_from_length.
     - intros i s l Hi. unfold Block.locs_of in Hi. unfold Block.ser_block. rewrite app_assoc.
@@ -566,7 +583,6 @@ Section Proofs.
     - destruct (negb _); [|reflexivity]. specialize (Hnth (Z.to_nat i)).
       destruct (nth_error (mb_txs m) (Z.to_nat i)), (nth_error (mb_txs m') (Z.to_nat i)); simpl in *; try discriminate; try reflexivity.
       inversion Hnth. congruence.
-    - destruct (deser_txloc _ _ _ W (ser_block m')); reflexivity.
   Qed.
 
   Lemma erase_ref_run ids ids' (m m' : msg_block) :
@@ -626,7 +642,8 @@ Section Proofs.
     - exists (match w_hash t with Some ph => fst ph | None => 0 end). split; [intros ph ->; reflexivity|reflexivity].
     - destruct o as [| |i|]; simpl.
       + unfold Block.wtx_hash. destruct (w_hash t) as [ph|] eqn:Hwh; simpl.
-        * destruct (IH next t (conj Hm ltac:(rewrite Hwh; exact Hh))) as [hid [Hid Hrun]].
+        * assert (tgood m t) as Hgt by (split; [exact Hm| rewrite Hwh; exact Hh]).
+          destruct (IH next t Hgt) as [hid [Hid Hrun]].
           exists hid. split; [assumption|]. rewrite Hrun, (Hid ph Hwh), Hh. reflexivity.
         * set (t' := mk_wtx txc H (w_ptr t) (w_msg t) (Some (next, tx_hash _ _ _ W (mt_val (w_msg t)))) (w_index t)).
           destruct (IH (next + 1) t') as [hid [Hid Hrun]].
